@@ -697,70 +697,58 @@ theorem C03_ctor_exp_interval (k : Ctor) (eps : ℚ) (hq : k.quad = false) :
     cases hm : k.maxValue <;> simp [n, hm]
   rw [← hn]; exact ⟨h1, h2⟩
 
-/-- `min()/max()` are the proved `qmin/qmax` for every spelling of `bits` that is not a numpy
-    integer … -/
-theorem C03_form_minmax_partial (bf : NumForm) (c : Cfg) (h : bf.npIntWidth = none) :
+/-- `min()/max()` as python evaluates them are the proved `qmin/qmax` for EVERY spelling of `bits`
+    — python int / float, numpy float, numpy integer of either width, 0-d ndarray, tf constant /
+    variable: `min()` never raises and no power wraps around.  (Before the fix round this was
+    `C03_form_minmax_partial` + `C03_npint_minmax_partial`: numpy integers were excluded, resp.
+    needed `max_exp < w - 1` and excluded the plain relu variant's `min()`.) -/
+theorem C03_form_minmax (bf : NumForm) (c : Cfg) :
     qmaxForm bf c = qmax c ∧ qminForm bf c = some (qmin c) := by
-  have h1 : qmaxForm bf c = qmax c := by
-    unfold qmaxForm qmax; rw [h]
+  have h1 : qmaxForm bf c = qmax c := rfl
   refine ⟨h1, ?_⟩
-  unfold qminForm qmin
-  rw [h1, h]
-  by_cases hr : c.relu = true <;> by_cases hs : c.negSlope = 0 <;> simp [hr, hs]
-
-/-- … and for a numpy integer `bits` of width `w` as long as `2**max_exp` does not wrap and the
-    smallest code is not asked for -/
-theorem C03_npint_minmax_partial (bf : NumForm) (c : Cfg) (w : ℕ) (h : bf.npIntWidth = some w)
-    (hm : c.maxExp < (w : ℤ) - 1 ∨ c.maxValue.isSome ∧ c.maxValue ≠ some 0) :
-    qmaxForm bf c = qmax c ∧ (¬ (c.relu = true ∧ c.negSlope = 0) → qminForm bf c = some (qmin c)) := by
-  have h1 : qmaxForm bf c = qmax c := by
-    unfold qmaxForm qmax; rw [h]
-    cases ht : truthy c.maxValue with
-    | some m => rfl
-    | none =>
-      rcases hm with hm | ⟨hs, hz⟩
-      · simp only; rw [if_neg (by omega)]
-      · exfalso
-        unfold truthy at ht
-        cases hmv : c.maxValue with
-        | none => simp [hmv] at hs
-        | some m =>
-          rw [hmv] at ht
-          by_cases h0 : m = 0
-          · exact hz (by rw [hmv, h0])
-          · simp [h0] at ht
-  refine ⟨h1, ?_⟩
-  intro hn
   unfold qminForm qmin
   rw [h1]
-  by_cases hr : c.relu = true <;> by_cases hs : c.negSlope = 0 <;> simp [hr, hs] at hn ⊢
+  by_cases hr : c.relu = true <;> by_cases hs : c.negSlope = 0 <;> simp [hr, hs]
 
-/-- recorded finding `C03-numpy-int-bits` (a): `quantized_relu_po2(np.int64(4)).min()` raises
-    (`2**np.int64(-8)`: "Integers to negative integer powers are not allowed") -/
-theorem C03_npint_min_raises_counterexample :
+/-- hence `min()/max()` of a quantizer built from ANY spelling of the constructor call enclose
+    every output (the last clause of the property, for the call as written) -/
+theorem C03_ctor_minmax_enclose (k : Ctor) (eps : ℚ) (hq : k.quad = false) (hw : (k.cfg eps).WF)
+    (hmv : MvOK (k.cfg eps)) (x : ℚ) (r : ℤ) (ha : RawAdm (k.cfg eps) (logArg (k.cfg eps) x) r) :
+    ∃ lo, qminForm k.bitsForm (k.cfg eps) = some lo ∧ lo ≤ quantWith (k.cfg eps) x r ∧
+      quantWith (k.cfg eps) x r ≤ qmaxForm k.bitsForm (k.cfg eps) := by
+  obtain ⟨h1, h2⟩ := C03_form_minmax k.bitsForm (k.cfg eps)
+  have he := C03_minmax_enclose (k.cfg eps) hq hw hmv x r ha
+  exact ⟨_, h2, he.1, h1 ▸ he.2⟩
+
+/-- regression witness of the former finding `C03-numpy-int-bits` (a), former
+    `C03_npint_min_raises_counterexample`: `quantized_relu_po2(np.int64(4)).min()` used to raise
+    (`2**np.int64(-8)`: "Integers to negative integer powers are not allowed"); it is `2^-8` now,
+    as for a python-int `bits` -/
+theorem C03_npint_min_fixed_witness :
     let k : Ctor := { relu := true, bits := 4, bitsForm := .npInt64, maxValue := none, negSlope := ⟨.pyInt, 0⟩,
                       stochastic := false, quad := false, floorMode := false }
-    qminForm k.bitsForm (k.cfg epsF32) = none ∧
+    qminForm k.bitsForm (k.cfg epsF32) = some (pow2 (-8)) ∧
     qminForm .pyInt (k.cfg epsF32) = some (pow2 (-8)) := by
   intro k
+  have : (k.cfg epsF32).minExp = -8 := by
+    simp [k, Ctor.cfg, Cfg.minExp, Cfg.effBits, needSign]
   constructor
-  · show qminForm NumForm.npInt64 (k.cfg epsF32) = none
-    unfold qminForm
-    have h1 : (k.cfg epsF32).relu = true := rfl
-    have h2 : (k.cfg epsF32).negSlope = 0 := rfl
-    rw [if_pos h1, if_pos h2]; rfl
-  · have : (k.cfg epsF32).minExp = -8 := by
-      simp [k, Ctor.cfg, Cfg.minExp, Cfg.effBits, needSign]
-    simp only [qminForm, NumForm.npIntWidth, this]
+  · show qminForm NumForm.npInt64 (k.cfg epsF32) = some (pow2 (-8))
+    simp only [qminForm, this]
+    simp [k, Ctor.cfg]
+  · simp only [qminForm, this]
     simp [k, Ctor.cfg]
 
-/-- recorded finding `C03-numpy-int-bits` (b): `quantized_po2(np.int64(8)).max()` is `1.0`
-    (`2**np.int64(63)` wraps) while `q(2^40) = 2^40` -/
-theorem C03_npint_max_wraps_counterexample :
+/-- regression witness of the former finding `C03-numpy-int-bits` (b), former
+    `C03_npint_max_wraps_counterexample`: `quantized_po2(np.int64(8)).max()` used to be `1.0`
+    (`2**np.int64(63)` wraps) while `q(2^40) = 2^40`; it is `2^63` now and encloses that output -/
+theorem C03_npint_max_fixed_witness :
     let k : Ctor := { relu := false, bits := 8, bitsForm := .npInt64, maxValue := none, negSlope := ⟨.pyInt, 0⟩,
                       stochastic := false, quad := false, floorMode := false }
     let c := k.cfg epsF32
-    qmaxForm k.bitsForm c = 1 ∧ RawAdm c (logArg c (pow2 40)) 40 ∧ quantWith c (pow2 40) 40 = pow2 40 ∧
+    qmaxForm k.bitsForm c = pow2 63 ∧ qminForm k.bitsForm c = some (- pow2 63) ∧
+    RawAdm c (logArg c (pow2 40)) 40 ∧ quantWith c (pow2 40) 40 = pow2 40 ∧
+    quantWith c (pow2 40) 40 ≤ qmaxForm k.bitsForm c ∧
     qmaxForm .pyInt c = pow2 63 := by
   intro k c
   have hmin : c.minExp = -64 := by simp [c, k, Ctor.cfg, Cfg.minExp, Cfg.effBits, needSign]
@@ -769,15 +757,20 @@ theorem C03_npint_max_wraps_counterexample :
   have hmag : magIn c (pow2 40) = pow2 40 := magIn_of_nonneg c hp
   have hlog : logArg c (pow2 40) = pow2 40 := by
     unfold logArg; rw [hmag]; simp [c, k, Ctor.cfg, xFilter, epsF32, pow2_eq_zpow]; norm_num
-  refine ⟨?_, ?_, ?_, ?_⟩
-  · unfold qmaxForm; rw [hmax]; simp [c, k, Ctor.cfg, truthy, NumForm.npIntWidth]
-  · rw [hlog, rawAdm_rnd c rfl]; unfold RndAdm key bandLo bandHi
-    simp only [c, k, Ctor.cfg, beta, pow2_eq_zpow]; norm_num
-  · unfold quantWith clipExpWith
+  have hq : ∀ bf, qmaxForm bf c = pow2 63 := by
+    intro bf
+    unfold qmaxForm; rw [hmax]
+    simp [c, k, Ctor.cfg, truthy, rmax, pow2_eq_zpow]; norm_num
+  have hy : quantWith c (pow2 40) 40 = pow2 40 := by
+    unfold quantWith clipExpWith
     rw [hmag, hmin, hmax, signOut_of_nonneg c hp]
     simp [c, k, Ctor.cfg, Cfg.qf, clipI, epsF32, pow2_eq_zpow]; norm_num
-  · unfold qmaxForm; rw [hmax]
-    simp [c, k, Ctor.cfg, truthy, NumForm.npIntWidth, rmax, pow2_eq_zpow]; norm_num
+  refine ⟨hq _, ?_, ?_, hy, ?_, hq _⟩
+  · have hr : c.relu = false := rfl
+    unfold qminForm; rw [hq]; simp [hr]
+  · rw [hlog, rawAdm_rnd c rfl]; unfold RndAdm key bandLo bandHi
+    simp only [c, k, Ctor.cfg, beta, pow2_eq_zpow]; norm_num
+  · rw [hy, hq]; exact pow2_le_pow2 (by norm_num)
 
 /-! ### `use_stochastic_rounding` and the learning phase -/
 
